@@ -287,6 +287,39 @@ def fresh_dir(prefix="p_"):
     return tempfile.mkdtemp(prefix=prefix, dir=worker_dir())
 
 
+class TookTooLong(Exception):
+    pass
+
+
+class time_limit:
+    """with time_limit(s): ...  -- raises TookTooLong inside the block when it runs longer (main thread of a worker process only; the
+    interval timer interrupts pure-Python loops and blocking system calls alike)"""
+
+    def __init__(self, seconds):
+        self.seconds = seconds
+
+    def __enter__(self):
+        import signal
+        import threading
+
+        self.armed = threading.current_thread() is threading.main_thread()
+        if self.armed:
+            def onalarm(signum, frame):
+                raise TookTooLong(f"no result after {self.seconds} s")
+
+            self.old = signal.signal(signal.SIGALRM, onalarm)
+            signal.setitimer(signal.ITIMER_REAL, self.seconds)
+        return self
+
+    def __exit__(self, *a):
+        import signal
+
+        if self.armed:
+            signal.setitimer(signal.ITIMER_REAL, 0)
+            signal.signal(signal.SIGALRM, self.old)
+        return False
+
+
 def run_child(cmd, env, timeout=1200, cwd=None):
     """a child interpreter with a watchdog: -> (output text, timed out?)"""
     import subprocess
